@@ -471,6 +471,10 @@ func runLinzCache(a *args, res *result) {
 			continue
 		}
 		r := newRng(a.seed, uint64(i)*8+5)
+		if a.prop == "C06" && i%4 == 3 {
+			closedScenario(r, res, i)
+			continue
+		}
 		rd := genCacheRound(r, a.prop)
 		logCase("linzcache %s round %d: %s", a.prop, i, rd.desc())
 		c, out := runCacheRound(rd)
@@ -563,4 +567,138 @@ func runLinzCache(a *args, res *result) {
 		}
 	}
 	_ = sort.Ints
+}
+
+// closedScenario (C06, exactly-once conservation): N keys are stored once with a
+// short TTL, the clock is advanced past every expiry, and then ONLY removers run
+// (2-4 overlapping DeleteExpired callers, Delete / GetAndDelete on subsets, the
+// janitor on its fake ticker) until the cache is empty. The ledger must then be
+// exactly the N stored pairs, each once.
+func closedScenario(r rng, res *result, idx int64) {
+	vshim.SetVirtual(true)
+	vshim.SetVNow(epoch)
+	vshim.ResetTickers()
+	led := &ledger{}
+	n := r.between(5, 300)
+	janitor := r.chance(0.5)
+	sp := cacheSpec{Flavor: pick(r, cacheFlavors), Ctor: "New", OptMask: 1 | 2 | 4, DefExp: time.Hour, NKeys: 512, Callback: led.cb(1)}
+	if janitor {
+		sp.Interval = time.Millisecond
+	}
+	c := newCache(sp)
+	var tk *vshim.FakeTicker
+	if janitor {
+		for i := 0; i < 1<<20 && tk == nil; i++ {
+			if tks := vshim.Tickers(); len(tks) > 0 {
+				tk = tks[len(tks)-1]
+			} else {
+				runtime.Gosched()
+			}
+		}
+	}
+	stored := map[int]any{}
+	for k := 0; k < n; k++ {
+		v := nextVal(k)
+		c.Set(k, v, time.Duration(r.between(1, 20)))
+		stored[k] = v
+	}
+	vshim.SetVNow(epoch + 1000)
+	level := pick(r, []int{0, 1, 2, 2, 3})
+	procs := pick(r, []int{1, 2, 4, 16})
+	polling := r.chance(0.5)
+	removers := r.between(2, 4)
+	pointRemovers := r.between(0, 3)
+	desc := fmt.Sprintf("closed %s n=%d removers=%d point-removers=%d janitor=%v level=%d procs=%d polling=%v", sp.Flavor, n, removers, pointRemovers, janitor, level, procs, polling)
+	logCase("linzcache C06 round %d: %s", idx, desc)
+	mode := vshim.MCount | vshim.MBudget
+	if level > 0 {
+		mode |= vshim.MPerturb
+	}
+	if polling {
+		mode |= vshim.MPoll
+	}
+	vshim.SetPerturb(level, vshim.NKinds)
+	old := runtime.GOMAXPROCS(procs)
+	vshim.ResetLive()
+	vshim.SetMode(mode)
+	var wg sync.WaitGroup
+	start := make(chan struct{})
+	var loadedGAD int64
+	for g := 0; g < removers; g++ {
+		wg.Add(1)
+		go func() {
+			defer wg.Done()
+			<-start
+			c.DeleteExpired()
+			vshim.Progress()
+			c.DeleteExpired()
+			vshim.Progress()
+		}()
+	}
+	seeds := make([]uint64, pointRemovers)
+	for i := range seeds {
+		seeds[i] = r.Uint64()
+	}
+	for g := 0; g < pointRemovers; g++ {
+		wg.Add(1)
+		go func(g int) {
+			defer wg.Done()
+			rr := newRng(int64(seeds[g]), uint64(g))
+			<-start
+			for j := 0; j < n/2; j++ {
+				k := rr.intn(n)
+				if rr.intn(2) == 0 {
+					c.Delete(k)
+				} else if _, ok := c.GetAndDelete(k); ok {
+					atomic.AddInt64(&loadedGAD, 1)
+				}
+				vshim.Progress()
+			}
+		}(g)
+	}
+	close(start)
+	if tk != nil {
+		tk.Fire()
+	}
+	wg.Wait()
+	if tk != nil {
+		tk.FireWait(1 << 20)
+		tk.FireWait(1 << 20)
+		tk.FireWait(1 << 20)
+	}
+	vshim.SetMode(0)
+	runtime.GOMAXPROCS(old)
+	c.DeleteExpired()
+	res.Evaluations++
+	res.count("family:closed-conservation", 1)
+	fp := newFP()
+	fp.addStr(desc)
+	res.nontrivial(fp.sum())
+	bad := func(sig, msg string) {
+		res.violate(violation{Class: "callback", Sig: sig, Msg: sp.Flavor + ": " + msg, Case: map[string]any{"case_index": idx, "desc": desc}})
+	}
+	if cnt := c.Count(); cnt != 0 {
+		bad("expired entries survive DeleteExpired in the closed scenario", fmt.Sprintf("Count()=%d after all removers and a final DeleteExpired", cnt))
+	}
+	if loadedGAD != 0 {
+		bad("GetAndDelete reports an expired entry as loaded", fmt.Sprintf("%d GetAndDelete calls returned loaded=true on expired entries", loadedGAD))
+	}
+	led.mu.Lock()
+	got := map[int]int{}
+	for _, e := range led.entries {
+		got[e.K]++
+		if want, ok := stored[e.K]; !ok || want != e.V {
+			bad("callback with a key/value pair that was never stored", fmt.Sprintf("(k%d,%s)", e.K, fmtVal(e.V)))
+		}
+	}
+	nled := len(led.entries)
+	led.mu.Unlock()
+	res.count("callbacks_observed", int64(nled))
+	for k := range stored {
+		if got[k] != 1 {
+			bad(fmt.Sprintf("removed entry reported %d times to the evicted callback (closed scenario)", got[k]), fmt.Sprintf("k%d: %d callbacks; %d entries stored, %d callbacks in total", k, got[k], n, nled))
+			break
+		}
+	}
+	runtime.KeepAlive(c)
 }
